@@ -12,7 +12,7 @@ R01g path assembly loops cover every extracted node
 R01h interpolation parameters that can exceed 1 are followed by enforceBounds before the state is used
 """
 import re
-from engine import facts, paths, lin
+from engine import facts, paths, lin, fd
 from engine.facts import AnalysisBroken, src
 from engine.shape import key, args, pkey, for_loop
 from rules import planners as P
@@ -47,7 +47,7 @@ def link_sites(f):
     for n in f.walk():
         if n['k'] == 'BinaryOperator' and n.get('op') == '=':
             t = f.strip(n['ch'][0])
-            if t is not None and t['k'] == 'MemberExpr' and t.get('name') in ('parent', 'parent_') and '*' in (t.get('ty') or ''):
+            if t is not None and t['k'] == 'MemberExpr' and t.get('name') in ('parent', 'parent_', 'parentApx_') and '*' in (t.get('ty') or ''):
                 r = f.strip(n['ch'][1])
                 if r is not None and r['k'] in ('CXXNullPtrLiteralExpr', 'GNUNullExpr'):
                     continue
@@ -870,6 +870,271 @@ def r01m(rep, F):
     rep.require_count('R01m', 'delegated registrations', n, 1)
 
 
+# ---------------------------------------------------------------------------------------------------------------
+class _UF:
+    def __init__(self):
+        self.p = {}
+
+    def find(self, x):
+        self.p.setdefault(x, x)
+        while self.p[x] != x:
+            self.p[x] = self.p[self.p[x]]
+            x = self.p[x]
+        return x
+
+    def union(self, a, b):
+        if a is not None and b is not None:
+            self.p[self.find(a)] = self.find(b)
+
+
+def _sfp(f, nid):
+    n = f.strip(nid)
+    return f.fp(n['id']) if n is not None else None
+
+
+def _may_alias(f, checks):
+    """flow-insensitive may-equality of state / node expressions: copyState(a, b), pointer initialisations and assignments (both
+    alternatives of a ternary), and for a 3-argument motion check the last-valid state, which is a prefix end of the checked motion"""
+    uf = _UF()
+
+    def join(t, rid):
+        r = f.strip(rid)
+        if r is None or r['k'] in ('CXXNewExpr', 'CXXNullPtrLiteralExpr', 'GNUNullExpr'):
+            return
+        if r['k'] == 'ConditionalOperator':
+            join(t, r['ch'][1])
+            join(t, r['ch'][2])
+        else:
+            uf.union(t, f.fp(r['id']))
+
+    for x in f.walk():
+        if (x.get('callee') or '').endswith('::copyState') and len(args(f, x)) == 2:
+            join(_sfp(f, args(f, x)[0]), args(f, x)[1])
+        elif x['k'] == 'DeclStmt':
+            for d in x.get('decls', []):
+                if d.get('init') and (d.get('ty') or '').rstrip().endswith('*'):
+                    join('%s#%d' % (d['name'], d['did']), d['init'])
+        elif x['k'] == 'BinaryOperator' and x.get('op') == '=':
+            t = f.strip(x['ch'][0])
+            if t is not None and (t.get('ty') or '').rstrip().endswith('*') and not (t['k'] == 'MemberExpr' and t.get('name') in ('parent', 'parent_')):
+                join(f.fp(t['id']), x['ch'][1])
+    for c in checks:
+        a = args(f, c)
+        if len(a) == 3:
+            uf.union(_sfp(f, a[2]) + '.first', _sfp(f, a[1]))
+    return uf
+
+
+def _state_classes(uf, node_fp):
+    out = {uf.find(node_fp)}
+    root = uf.find(node_fp)
+    for k in list(uf.p):
+        if uf.find(k) == root:
+            for sfx in ('.state', '.state_'):
+                out.add(uf.find(k + sfx))
+    for sfx in ('.state', '.state_'):
+        out.add(uf.find(node_fp + sfx))
+    return out
+
+
+PAIR_EXCEPTIONS = {
+    (G + 'LBKPIECE1::isPathValid', 'reAdd'): 'a motion detached by removeMotion is re-attached to the parent it was validated against earlier in the same walk',
+}
+
+
+def r01n(rep, F):
+    rep.rule('R01n', 'the motion checked is the motion linked: in every function of a (non-lazy) geometric planner that both checks motions and '
+                     'links tree nodes, each link X->parent = P -- written directly or through a helper of the planner that links two of its '
+                     'parameters -- has a motion check in the same function whose two arguments are, up to the function\'s own aliases '
+                     '(copyState, pointer copies, the last-valid state of a 3-argument check), the states (or nodes) of P and X.  A check of '
+                     'some other pair followed by this link admits an edge nobody validated')
+    W = P.check_wrappers(F)
+    fns = [f for f in F.functions if f.file.endswith('.cpp') and '/geometric/planners/' in f.file and f.body and not f.name.endswith('::getPlannerData')]
+
+    def is_check(c):
+        return (c.get('callee') or '').endswith('::checkMotion') or c.get('callee') in W
+
+    # helper summaries: a function without its own motion check that links parameter i under parameter j
+    linkers = {}
+    for f in fns:
+        if any(is_check(c) for c in f.walk()):
+            continue
+        pk = {'%s#%d' % (p['name'], p['did']): i for i, p in enumerate(f.params)}
+        for sid, kind in link_sites(f).items():
+            if kind != 'parent':
+                continue
+            n = f.nodes[sid]
+            X, Pp = _sfp(f, f.strip(n['ch'][0])['ch'][0]), _sfp(f, n['ch'][1])
+            if X in pk and Pp in pk:
+                linkers[f.name] = (pk[X], pk[Pp])
+    rep.extra['linking_helpers'] = sorted(linkers)
+    n_ok = 0
+    for f in fns:
+        base = (f.record or '').split('::(lambda')[0]
+        if any(base == l or base.startswith(l + '::') for l in LAZY):
+            continue
+        checks = [c for c in f.walk() if is_check(c)]
+        if not checks:
+            continue
+        pairs = []
+        for sid, kind in sorted(link_sites(f).items()):
+            if kind == 'parent':
+                n = f.nodes[sid]
+                pairs.append((_sfp(f, f.strip(n['ch'][0])['ch'][0]), _sfp(f, n['ch'][1]), n))
+        for c in f.walk():
+            if c.get('callee') in linkers and len(args(f, c)) > max(linkers[c['callee']]):
+                i, j = linkers[c['callee']]
+                pairs.append((_sfp(f, args(f, c)[i]), _sfp(f, args(f, c)[j]), c))
+        if not pairs:
+            continue
+        uf = _may_alias(f, checks)
+        for (X, Pp, n) in pairs:
+            if X is None or Pp is None:
+                continue
+            role = 'linked=checked[%s<-%s]' % (nofp(X), nofp(Pp))
+            if (f.name, nofp(X)) in PAIR_EXCEPTIONS:
+                rep.undecided('R01n', f.name, role, PAIR_EXCEPTIONS[(f.name, nofp(X))])
+                continue
+            cx, cp = _state_classes(uf, X), _state_classes(uf, Pp)
+            hit = None
+            for c in checks:
+                a = args(f, c)
+                if len(a) < 2:
+                    continue
+                ca, cb = uf.find(_sfp(f, a[0])), uf.find(_sfp(f, a[1]))
+                if (ca in cp and cb in cx) or (ca in cx and cb in cp):
+                    hit = c
+                    break
+            n_ok += 1
+            rep.add('R01n', f.name, role, hit is not None, f.where(n),
+                    'validated by the check at line %d' % f.line(hit) if hit is not None else
+                    '%s is linked under %s, but no motion check in this function tests that pair (checked: %s): the edge is admitted on the '
+                    'strength of a check of a different motion' % (nofp(X), nofp(Pp), '; '.join(
+                        '(%s, %s)' % (nofp(_sfp(f, args(f, c)[0]) or '?'), nofp(_sfp(f, args(f, c)[1]) or '?')) for c in checks if len(args(f, c)) >= 2)[:300]))
+    rep.require_count('R01n', 'links matched with their motion check', n_ok, 1)
+
+
+# ---------------------------------------------------------------------------------------------------------------
+class ChainInterp(fd.Interp):
+    """PRM::expandRoadmap after randomBounceMotion: vertices are abstract chain positions (-1 = the vertex the walk started from,
+    k = the vertex created for workStates[k]); records the (position, position) pairs handed to boost::add_edge"""
+
+    def __init__(self, fn, same_component):
+        super().__init__(fn)
+        self.same = same_component
+        self.edges = []
+        self.fresh = 0
+
+    def load(self, n, env):
+        return ('opaque', self.fn.fp(n['id']))
+
+    def store(self, lhs, value, env):
+        # stateProperty_[m] = cloneState(workStates[i]) gives vertex m its chain position; other property maps are irrelevant here
+        if lhs is not None and lhs.get('callee', '').endswith('operator[]') or (lhs is not None and lhs['k'] == 'CXXOperatorCallExpr' and lhs.get('oop') == '[]'):
+            base = self.fn.fp(lhs['ch'][-2]) if len(lhs['ch']) >= 2 else ''
+            idx = self.ev(lhs['ch'][-1], env)
+            if 'stateProperty_' in base and isinstance(idx, dict) and isinstance(value, tuple) and value[0] == 'state':
+                idx['pos'] = value[1]
+            return
+        raise AnalysisBroken('R01o: store to %s in expandRoadmap' % (self.fn.fp(lhs['id']) if lhs else '?'))
+
+    def call(self, n, env):
+        c = n.get('callee') or ''
+        a = args(self.fn, n)
+        if n['k'] == 'CXXOperatorCallExpr' and n.get('oop') == '[]':
+            base = self.fn.fp(n['ch'][-2])
+            idx = self.ev(n['ch'][-1], env)
+            if 'workStates' in base:
+                return ('work', idx)
+            if 'stateProperty_' in base.split('(')[-1] or 'stateProperty_' in base:
+                return ('stateof', idx.get('pos') if isinstance(idx, dict) else None)
+            return ('opaque', base)
+        if n['k'] == 'CXXOperatorCallExpr' and n.get('oop') == '=' and len(n['ch']) == 2:
+            v = self.ev(n['ch'][1], env)
+            self.assign(self.fn.strip(n['ch'][0]), v, env)
+            return v
+        if c.endswith('::cloneState'):
+            w = self.ev(a[0], env)
+            if isinstance(w, tuple) and w[0] == 'work':
+                return ('state', w[1])
+            return ('opaque', 'state')
+        if c == 'boost::add_vertex':
+            self.fresh += 1
+            return {'pos': None, 'id': self.fresh}
+        if c.endswith('PRM::addMilestone'):
+            st = self.ev(a[0], env)
+            self.fresh += 1
+            return {'pos': st[1] if isinstance(st, tuple) and st[0] == 'state' else None, 'id': self.fresh}
+        if c == 'boost::add_edge':
+            x, y = self.ev(a[0], env), self.ev(a[1], env)
+            self.edges.append((x.get('pos') if isinstance(x, dict) else None, y.get('pos') if isinstance(y, dict) else None))
+            return ('opaque', 'edge')
+        if c.endswith('PRM::sameComponent'):
+            return self.same
+        for x in a:   # evaluate arguments for their effects, the result is irrelevant to the chain
+            try:
+                self.ev(x, env)
+            except AnalysisBroken:
+                pass
+        return ('opaque', c)
+
+    def ev(self, nid, env):
+        n = self.fn.nodes.get(nid)
+        if n is not None and n['k'] in ('CXXConstructExpr', 'CXXTemporaryObjectExpr') and len(n['ch']) != 1:
+            return ('opaque', 'object')
+        return super().ev(nid, env)
+
+
+def r01o(rep, F):
+    rep.rule('R01o', 'PRM::expandRoadmap: randomBounceMotion validates the walk v -> w[0] -> w[1] -> ... -> w[s] step by step, so the roadmap '
+                     'edges built from it must join consecutive walk states only.  The block is evaluated over abstract chain positions for '
+                     'every walk length 1..4 and both answers of sameComponent: the pairs given to add_edge are exactly the consecutive '
+                     'pairs (the closing pair may be skipped only for a one-state walk already in the same component)')
+    fs = [f for f in F.by_name.get(G + 'PRM::expandRoadmap', []) if f.body and len(f.params) == 2]
+    if not fs:
+        raise AnalysisBroken('R01o: PRM::expandRoadmap(ptc, workStates) not found')
+    f = fs[0]
+    blk = sdecl = vdecl = None
+    for x in f.walk():
+        if x['k'] == 'DeclStmt':
+            for d in x.get('decls', []):
+                ini = f.strip(d['init']) if d.get('init') else None
+                if ini is not None and (ini.get('callee') or '').endswith('::randomBounceMotion'):
+                    sdecl = d
+                    vn = f.strip(args(f, ini)[1])
+                    # the start of the walk is stateProperty_[v]
+                    vdecl = f.strip(vn['ch'][-1]) if vn is not None and vn['ch'] else None
+    if sdecl is None or vdecl is None or vdecl['k'] != 'DeclRefExpr':
+        raise AnalysisBroken('R01o: the randomBounceMotion call of expandRoadmap was not recognised')
+    skey = '%s#%d' % (sdecl['name'], sdecl['did'])
+    vkey = '%s#%d' % (vdecl['name'], vdecl['did'])
+    for x in f.walk():
+        if x['k'] == 'IfStmt' and key(f, (f.strip(x['cond']) or {'ch': [0]})['ch'][0]) == skey:
+            blk = x
+    if blk is None:
+        raise AnalysisBroken('R01o: the if (s > 0) block of expandRoadmap was not recognised')
+    bad = None
+    runs = 0
+    for s in (1, 2, 3, 4):
+        for same in (True, False):
+            it = ChainInterp(f, same)
+            env = {skey: s, vkey: {'pos': -1, 'id': 0}}
+            try:
+                it.ex(blk['id'], env)
+            except fd.Return:
+                pass
+            runs += 1
+            want = [(k - 1, k) for k in range(0, s)]
+            got = it.edges
+            last = s - 1
+            ok = sorted(got) == sorted(want) or (s == 1 and same and got == [])
+            if not ok and bad is None:
+                bad = 'for a walk of %d state(s) (sameComponent = %s) the edges join chain positions %s; the validated steps are %s' % (
+                    s, same, got, want)
+    rep.add('R01o', f.name, 'walk-edges-consecutive', bad is None, f.where(blk), bad or 'edges equal the validated steps on %d abstract runs' % runs)
+    rep.require_count('R01o', 'random-walk expansions', 1, 1)
+
+
 def run(rep):
     units = P.geometric_units() + P.multilevel_units() + P.base_units()
     F = facts.load_units(units)
@@ -898,3 +1163,5 @@ def run(rep):
     r01k(rep, F)
     r01l(rep, F)
     r01m(rep, F)
+    r01n(rep, F)
+    r01o(rep, F)
